@@ -1002,6 +1002,7 @@ PROPS["C08"] = dict(
                "Correspondence compares repr, derives, variant names/literals/default attribute and the registry; the monitor recomputes intended values from the description.",
     level_note="Trusted: Coq kernel; model validated by this run's correspondence; cast semantics of `as _` is RustLayout.cast_discr (spec side).",
     kf_class="KF_discr_out_of_range",
+    layout_oracle=True,
 )
 
 import gen_special  # noqa: E402
@@ -1388,42 +1389,83 @@ LAYOUT_PROFILE = dict(p_pub=1.0, p_backend=0.0, p_markers=0.3, modules=(1, 2), p
 
 
 def rustc_layout_stage(pid, tier, seed, scratch):
-    """rustc itself as the authority (pointer width 8, the host): the emitted crate is compiled with
-    compile-time assertions -- size_of/align_of of every item = what pyxis resolved (C02), offset_of of
-    every declared field = the declared address (C01).  Crates that rustc rejects for another reason
-    (listed findings, visibility outside the documented fragment) are not usable and are counted."""
+    """rustc itself as the authority.  (a) pointer width 8, the host: the emitted crate is compiled with
+    compile-time assertions -- size_of/align_of of every item = what pyxis resolved (C02), offset_of of every
+    declared field = the declared address (C01).  (b) pointer width 4 (and 8 again): the emitted struct / enum
+    definitions alone are compiled by the nightly compiler without the core library for i686-pc-windows-msvc
+    (x86_64-pc-windows-msvc), and its layout dump (-Zprint-type-sizes) is compared with the resolved sizes /
+    alignments and the declared offsets.  Crates that rustc rejects for another reason (listed findings,
+    visibility outside the documented fragment) are not usable and are counted."""
     import rustc_oracle
     from concurrent.futures import ThreadPoolExecutor
     n = 40 if tier == "quick" else 600
+    profile = LAYOUT_PROFILE if pid in ("C01", "C02") else PROPS[pid]["profile"]
+    tags = {"C01": ("C01",), "C02": ("C02",), "C08": ("C02", "C08")}[pid]
     cases = []
     for i in range(n):
-        files, exp = gen.generate(seed * 7919 + 17 * i + 3, 8, LAYOUT_PROFILE)
-        cases.append(dict(id="lay-%d" % i, ptr=8, schedule=[], files=files, exp=exp, text=True))
+        files, exp = gen.generate(seed * 7919 + 17 * i + 3, 8, profile)
+        cases.append(dict(id="lay-%d" % i, ptr=8, schedule=[], files=files, exp=exp, text=True, via="host"))
+    for i in range(2 * n):
+        ptr = 4 if i % 4 else 8
+        files, exp = gen.generate(seed * 104729 + 31 * i + 5, ptr, profile)
+        cases.append(dict(id="lay%d-%d" % (ptr, i), ptr=ptr, schedule=[], files=files, exp=exp, text=True, via="nocore"))
     failures, counts = [], collections.Counter()
     for b0 in range(0, len(cases), 200):
         results = [r for r in engine.run(cases[b0:b0 + 200], scratch, want_model=False) if r.hv[0] == "ok"]
 
         def job(r):
+            name = re.sub(r"\W", "_", r.case["id"])
             try:
-                return rustc_oracle.layout_check(r.h, r.case["exp"], scratch, re.sub(r"\W", "_", r.case["id"]))
+                if r.case["via"] == "host":
+                    return rustc_oracle.layout_check(r.h, r.case["exp"], scratch, name) + ([],)
+                return rustc_oracle.nocore_layout(r.h, r.case["exp"], scratch, name, r.case["ptr"])
             except Exception as e:  # noqa
-                return (False, ["oracle-error"], str(e))
+                return (False, ["oracle-error"], str(e), [])
         with ThreadPoolExecutor(P.JOBS) as ex:
             verdicts = list(ex.map(job, results))
-        for r, (ok, codes, err) in zip(results, verdicts):
+        for r, (ok, codes, err, bad) in zip(results, verdicts):
+            via = r.case["via"] if r.case["via"] == "host" else "nocore_w%d" % r.case["ptr"]
             if ok:
-                counts["rustc_layout:all_assertions_hold"] += 1
+                mine = [t for (tag, t) in bad if tag in tags]
+                if mine:
+                    counts["rustc_layout[%s]:LAYOUT_DIFFERS" % via] += 1
+                    failures.append(dict(clause="%s.rustc_layout" % pid, detail="rustc lays the emitted item out differently: %s" % "; ".join(mine[:5]),
+                                         case=summarise_case(r.case)))
+                elif bad:
+                    counts["rustc_layout[%s]:difference_for_the_other_property" % via] += 1
+                else:
+                    counts["rustc_layout[%s]:all_%s" % (via, "assertions_hold" if via == "host" else "sizes_alignments_offsets_agree")] += 1
                 continue
             msgs = sorted(set(re.findall(r"(%s [^\n\"']*)" % pid, err))) if "E0080" in codes else []
             if msgs:
-                counts["rustc_layout:ASSERTION_FAILED"] += 1
+                counts["rustc_layout[%s]:ASSERTION_FAILED" % via] += 1
                 failures.append(dict(clause="%s.rustc_layout" % pid, detail="rustc evaluates the layout differently: %s" % "; ".join(msgs[:5]),
                                      case=summarise_case(r.case)))
             elif "E0080" in codes:
-                counts["rustc_layout:assertion_of_the_other_property_failed"] += 1
+                counts["rustc_layout[%s]:assertion_of_the_other_property_failed" % via] += 1
+            elif pid == "C08" and "E0081" in codes and not declared_duplicates(r.case.get("exp")):
+                counts["rustc_layout[%s]:DUPLICATE_DISCRIMINANT" % via] += 1
+                failures.append(dict(clause="C08.rustc_values", detail="rustc for pointer width %d finds two variants with one value although the declared values differ: %s"
+                                     % (r.case["ptr"], " | ".join(l.strip() for l in err.split("\n") if "E0081" in l or " as _" in l)[:400]),
+                                     case=summarise_case(r.case)))
+            elif pid == "C08" and "literal out of range" in err:
+                counts["rustc_layout[%s]:LITERAL_OUT_OF_RANGE" % via] += 1
+                failures.append(dict(clause="C08.rustc_values", detail="a discriminant literal does not fit its type when compiled for pointer width %d: %s"
+                                     % (r.case["ptr"], " | ".join(l.strip() for l in err.split("\n") if " as _" in l)[:300]),
+                                     case=summarise_case(r.case)))
             else:
-                counts["rustc_layout:crate_unusable:%s" % ",".join(codes)] += 1
+                counts["rustc_layout[%s]:crate_unusable:%s" % (via, ",".join(c[:40] for c in codes if not c.startswith("aborting")))] += 1
     return failures, dict(counts)
+
+
+def declared_duplicates(exp):
+    """does some enum of the description declare two variants whose values coincide in the base type?"""
+    for e in ((exp or {}).get("enums") or {}).values():
+        bits = 8 * gen.PRIMS[e["base"]][0]
+        vals = [v % (1 << bits) for _, v in e["cases"] if v is not None]
+        if len(set(vals)) != len(vals):
+            return True
+    return False
 
 
 def run_property(pid, prop, tier, seed, scratch, replay=None):
